@@ -104,12 +104,12 @@ def _apply_proj(base, projs):
     return e
 
 
-def place_expr(fn, pl, depth=12, seen=None, through_calls=True):
+def place_expr(fn, pl, depth=64, seen=None, through_calls=True):
     base = local_expr(fn, pl["l"], depth, seen, through_calls)
     return _apply_proj(base, pl.get("p", []))
 
 
-def local_expr(fn, l, depth=12, seen=None, through_calls=True):
+def local_expr(fn, l, depth=64, seen=None, through_calls=True):
     seen = seen or frozenset()
     if 1 <= l <= fn.arg_count:
         return ("param", l, fn.local_name(l))
@@ -126,7 +126,7 @@ def local_expr(fn, l, depth=12, seen=None, through_calls=True):
     return call_expr(fn, t, depth - 1, seen, through_calls)
 
 
-def call_expr(fn, t, depth=12, seen=None, through_calls=True):
+def call_expr(fn, t, depth=64, seen=None, through_calls=True):
     c = callee_of(t)
     args = tuple(operand_expr(fn, a, depth, seen, through_calls) for a in t["args"])
     if c["indirect"]:
@@ -141,7 +141,7 @@ def call_expr(fn, t, depth=12, seen=None, through_calls=True):
     return ("call", path, args)
 
 
-def operand_expr(fn, op, depth=12, seen=None, through_calls=True):
+def operand_expr(fn, op, depth=64, seen=None, through_calls=True):
     k = op.get("k")
     if k in ("copy", "move"):
         return place_expr(fn, op["pl"], depth, seen, through_calls)
@@ -160,7 +160,7 @@ def operand_expr(fn, op, depth=12, seen=None, through_calls=True):
     return ("other", str(op))
 
 
-def rvalue_expr(fn, rv, depth=12, seen=None, through_calls=True):
+def rvalue_expr(fn, rv, depth=64, seen=None, through_calls=True):
     k = rv["k"]
     if k == "use":
         return operand_expr(fn, rv["op"], depth, seen, through_calls)
@@ -269,7 +269,7 @@ def short(path):
     return path
 
 
-def all_def_exprs(fn, l, depth=12):
+def all_def_exprs(fn, l, depth=64):
     """Expressions of every definition (whole-local assignments and call results) of local l."""
     out = []
     for dd in defs_of(fn).all(l):
@@ -303,3 +303,53 @@ def is_call(x, *suffixes):
 
 def is_const(x, *values):
     return isinstance(x, tuple) and len(x) > 1 and x[0] == "const" and (not values or x[1] in values)
+
+
+def _operand_locals(op):
+    if op.get("k") in ("copy", "move"):
+        out = [op["pl"]["l"]]
+        for p in op["pl"].get("p", []):
+            if isinstance(p, dict) and "index" in p:
+                out.append(p["index"])
+        return out
+    return []
+
+
+def _rv_locals(rv):
+    out = []
+    for key in ("op", "a", "b"):
+        if key in rv and isinstance(rv[key], dict):
+            out += _operand_locals(rv[key])
+    if "pl" in rv:
+        out.append(rv["pl"]["l"])
+    for o in rv.get("ops", []):
+        out += _operand_locals(o)
+    return out
+
+
+def trace_locals(fn, start_locals):
+    """All locals the given locals are computed from (through every definition, call arguments included)."""
+    d = defs_of(fn)
+    seen = set()
+    stack = list(start_locals)
+    while stack:
+        l = stack.pop()
+        if l in seen:
+            continue
+        seen.add(l)
+        for dd in d.all(l):
+            if dd[0] in ("stmt", "pstmt"):
+                stack.extend(_rv_locals(dd[3]["rv"]))
+            else:
+                for a in dd[2]["args"]:
+                    stack.extend(_operand_locals(a))
+                stack.extend(_operand_locals(dd[2]["func"]))
+    return seen
+
+
+def operand_trace(fn, op):
+    return trace_locals(fn, _operand_locals(op))
+
+
+def place_trace(fn, pl):
+    return trace_locals(fn, [pl["l"]])
